@@ -188,8 +188,10 @@ def _run_shard(arg):
     return rep.export()
 
 
-def run_shards(report, fn, shard_args, nproc=None):
-    """Run fn(report_shard, arg) for every arg, in forked workers, merging results in order."""
+def run_shards(report, fn, shard_args, nproc=None, fresh_process=False):
+    """Run fn(report_shard, arg) for every arg, in forked workers, merging results in order.
+    fresh_process: every shard runs in a newly forked process (process-wide library state such as the
+    identifier registries then starts from the parent's state for each shard)."""
     global _SHARD_FN, _SHARD_PROP
     shard_args = list(shard_args)
     nproc = min(nproc or jobs(), len(shard_args)) or 1
@@ -198,7 +200,7 @@ def run_shards(report, fn, shard_args, nproc=None):
         results = [_run_shard(a) for a in shard_args]
     else:
         ctx = multiprocessing.get_context("fork")
-        with ctx.Pool(nproc) as pool:
+        with ctx.Pool(nproc, maxtasksperchild=1 if fresh_process else None) as pool:
             results = pool.map(_run_shard, shard_args, chunksize=1)
     for r in results:
         if "harness_error" in r:
